@@ -475,6 +475,7 @@ func run(tier, path string) {
 	x.skipOps(4, 60*mult)
 	for v := 2; v <= 5; v++ {
 		x.pagesOps(v, 25*mult)
+		x.qoneOps(v, 15*mult)
 	}
 	out.Close(map[string]interface{}{"skipped_unsafe_alloc_inputs": x.skip})
 }
